@@ -384,7 +384,7 @@ func (e *env) checkPair(h, root uint32, phase string) {
 func TestC08(t *testing.T) {
 	r := kit.Start(t, "C08", "exploration")
 	defer r.Finish()
-	r.Rule("one real ledger; blocks with k cross-chain records for k in {0,1,2,3,4,5,7,8,9,15,16,17,31,32,33,...} (+63..65,127..130 and random k thorough) produced by the real MakeTransaction (shapes: real, raw probe records, mixed, duplicated leaves), every record proved through the RPC handlers and verified against the header; all (h,r) pairs when r becomes the tip and again at the end and after a restart; distinct = (records in block, index) / (h,r)")
+	r.Rule("one real ledger; blocks with k cross-chain records for k in {0,1,2,3,4,5,7,8,9,15,16,17,31,32,33,...} (+63..65,127..130 and random k thorough) produced by the real MakeTransaction (shapes: real, raw probe records, mixed, duplicated leaves), every record proved through the RPC handlers and verified against the header; all (h,r) pairs when r becomes the tip and again at the end and after a restart; proof requests overlapping commits (6 reader goroutines during SubmitBlock; the real accumulator + file hash store with its Append parked while proofs of the size in flight are requested); distinct = (records in block, index) / (h,r)")
 	r.Assume("SHA-256 of the Go standard library; the record codec (ToMerkleValue) is trusted to build the expected record bytes")
 	r.Assume("'served to relayers' = the RPC handlers getcrossstatesproof / getmerkleproof / getsmartcodeevent over ledger.DefLedger")
 	probe.Register()
@@ -465,6 +465,11 @@ func TestC08(t *testing.T) {
 		e.checkRecords(h, n/12)
 		e.checkPair(h-1, h, "root-is-tip")
 	}
+	// proof requests that overlap commits (ledger level, then the accumulator with a parked append)
+	if !e.inflightLedger(r.N(40, 200)) {
+		return
+	}
+	inflightTree(r, r.N(96, 300))
 	// restart: proofs served by a reopened ledger
 	chain.Close()
 	chain2, l2, err := pk.OpenLedger(dir, 9, vals)
@@ -496,4 +501,8 @@ func TestC08(t *testing.T) {
 	r.Require("blocks_without_records_zero_root", 2)
 	r.Require("keys_taken_from_events", total*3)
 	r.Require("wrong_height_proof_refused", 3)
+	r.Require("commits_with_concurrent_proof_requests", r.N(40, 200))
+	r.Require("tip_root_served_valid_during_commit", r.N(40, 200))
+	r.Require("tree_appends_with_inflight_requests", r.N(96, 300))
+	r.Require("tree_committed_size_served_valid_during_append", r.N(96, 300))
 }
